@@ -341,6 +341,11 @@ def stream_dirs(ctx, drv, orc, n_dirs):
         ({"a.py": "", "b.py": "   \n", "c.py": "x = 1\x00\n"}, ["a.py", "b.py", "c.py"]),
         ({"a.py": "import b\nx = 1\n", "b.py": "import a\n", "c.py": "def (:)\n"}, ["c.py"]),
         ({"a.py": "x = $\n"}, ["a.py"]),
+        # CPython 3.12's tokenizer raises SystemError (not TokenError) on a NUL after an indented line
+        # (seeded change C14-a narrowed the catch-all of safe_full_cleaning and was missed by one seed of two)
+        ({"a.py": "x = 1\n", "b.py": "def f():\n    x = 1\ny = 2\x00\n"}, ["b.py"]),
+        ({"a.py": "import b\n", "b.py": "if x:\n    y = 1\n\x00\x00\x00\n"}, ["b.py"]),
+        ({"b.py": "x = 1\ny = 2\x00\n", "c.py": "x = 'a\n"}, ["b.py", "c.py"]),
     ]
     seen_known = 0
     for i in range(len(fixed) + n_dirs):
